@@ -185,3 +185,44 @@ namespace LK.DS
 example : ((step (fun (a b : Nat) => decide (a ≤ b)) (fun (t : Int) => some t)
             { users := [1], items := [5, 6], recs := [{ u := 0, i := 0, a := 3 }, { u := 0, i := 1, a := 9 }] } (.filterTime (some 2) (some 9))).1.recs.map (·.i)) = [0] := by decide
 end LK.DS
+
+/-! ### the per-run translations (§10.8): concrete instances meeting the hypotheses of their obligations -/
+section Translations
+open LK.Attr LK.ArrowOps LK.Gen.ArrowC17
+
+/-- C17: two rows supplied out of table order, one of them with a null list, into a table of four rows -/
+example : expandAlignT 4 [2, 0] [some [7, 8], (none : Option (List Nat))] = expandAlign 4 (dropNulls ([2, 0].zip [some [7, 8], none])) :=
+  expandAlignT_eq 4 [2, 0] [some [7, 8], none] rfl (by decide) (by decide)
+
+example : (expandAlignT 4 [2, 0] [some [7, 8], (none : Option (List Nat))]).get 2 = some [7, 8] := by
+  rw [expandAlignT_readback 4 [2, 0] [some [7, 8], none] rfl (by decide) (by decide) 2 (by decide)]; decide
+
+example : LK.Gen.ArrowScalarC17.scalarPlaceT 3 [2, 0] ["b", "a"] = [some "a", none, some "b"] := by
+  rw [scalarPlaceT_eq 3 [2, 0] ["b", "a"] rfl (by decide)]; decide
+
+/-- C03: a history with a known item (1), an unknown one (−1) and a repeated one -/
+example : LK.Gen.CandC03.unratedCandidatesT 4 (some [1, -1, 1]) = [0, 2, 3] := by
+  rw [LK.CandOps.unratedCandidatesT_spec 4 (some [1, -1, 1]) (by intro h hh k hk; cases hh; revert k; decide)]; decide
+
+/-- C06: a cut-off of 2 on a longer list; recall's denominator with more test items than the cut-off -/
+example : LK.Gen.GuardsC06.truncate (some 2) true 5 (some 7) (some 9) = some 7 := by decide
+example : LK.Gen.GuardsC06.recallDenominator (some 2) 5 = some 2 := by decide
+
+/-- C19: a run-time length of 0 is a length; an oversized one is clamped -/
+example : LK.Gen.GuardsC19.stochasticN (some 0) (some 3) 4 = some 0 := by decide
+example : LK.Gen.GuardsC19.stochasticN (some 9) (some 3) 4 = some 4 := by decide
+example : LK.Gen.GuardsC19.randomN none none 4 = some 4 := by decide
+
+/-- C05: the two latest of four rows; none for n = 0 -/
+example : LK.Gen.HoldoutC05.lastNCall [30, 10, 40, 20] 2 = [0, 2] := by decide
+example : LK.Gen.HoldoutC05.lastNCall [30, 10, 40, 20] 0 = [] := by decide
+
+/-- C20: one re-draw: the first draw hits the observed pair (0, 1), the second does not -/
+example : LK.Gen.NegC20.sampleT { nCols := 3, observed := [(0, 1)], storedCols := [1] } .uniform 1 [0] [[1], [2]]
+    = some { cols := [2], warned := false, rest := [] } := by decide
+
+/-- …and with the budget exhausted the observed column is returned with a warning -/
+example : LK.Gen.NegC20.sampleT { nCols := 3, observed := [(0, 1)], storedCols := [1] } .uniform 0 [0] [[1]]
+    = some { cols := [1], warned := true, rest := [] } := by decide
+
+end Translations
